@@ -331,7 +331,7 @@ impl Check for C06 {
         "C06"
     }
     fn workloads(&mut self, tier: Tier, _seed: u64) -> Vec<(String, u64)> {
-        let k = if tier == Tier::Quick { 1 } else { 20 };
+        let k = if tier == Tier::Quick { 10 } else { 80 };
         vec![("edit-built".into(), 150_000 * k), ("toml-built".into(), 60_000 * k), ("fragments".into(), 40_000 * k), ("conversions".into(), 40_000 * k)]
     }
     fn run(&mut self, ctx: &mut Ctx, workload: &str, index: u64, rng: &mut Rng) {
